@@ -46,7 +46,7 @@ class Cfg:
     """One configuration of a run: universe + how the tracks object is constructed."""
 
     def __init__(self, N=3, T=3, dims=(), scale=(), use_scale=True, reg_cust=False,
-                 per_axis_pos=False, name="struct", enable=(), rebuild=None, embed=None, max_stroke=0):
+                 per_axis_pos=False, name="struct", enable=(), rebuild=None, embed=None, max_stroke=0, node_shift=0):
         self.N, self.T = N, T
         self.dims = tuple(dims)
         self.scale = tuple(scale) if scale else tuple(1 for _ in dims)
@@ -58,9 +58,12 @@ class Cfg:
         # rebuild: after replaying a path, construct a NEW SolutionTracks from a copy of the graph
         # (ids shifted down by `shift`, so that id 0 occurs; optional falsy custom edge attribute)
         self.rebuild = dict(rebuild) if rebuild else None
+        self.node_shift = node_shift    # >0: the driver uses real node ids = model ids - node_shift from the start
         # embed: [width, [real column of abstract column 0, 1, ...]]: the abstract frame is embedded in a
         # wider real array (last axis), e.g. to straddle the 64-voxel chunks of the GEFF exporter
         self.embed = embed
+        # embed may also be a dict {"shape": real array shape, "tmap": real frame of abstract frame 0.., "amap":
+        # [per spatial axis: real index of abstract index 0.. (or None = identity)]}: embedding along every axis
         self.max_stroke = max_stroke    # 0: all strokes are fired; k: only strokes of <= k pixels
         self.P = int(np.prod(self.dims)) if self.dims else 0
 
@@ -72,7 +75,7 @@ class Cfg:
         return {"N": self.N, "T": self.T, "dims": list(self.dims), "scale": list(self.scale),
                 "use_scale": self.use_scale, "reg_cust": self.reg_cust,
                 "per_axis_pos": self.per_axis_pos, "name": self.name, "enable": self.enable,
-                "rebuild": self.rebuild, "embed": self.embed, "max_stroke": self.max_stroke}
+                "rebuild": self.rebuild, "embed": self.embed, "max_stroke": self.max_stroke, "node_shift": self.node_shift}
 
     @staticmethod
     def from_json(d):
@@ -90,13 +93,15 @@ class Driver:
     def __init__(self, cfg: Cfg, graph=None, seg=None, shift=0, ecust=False, nshift=0):
         self.cfg = cfg
         self.shift = shift              # real id = model id - shift
-        self.nshift = nshift            # real NODE id = model node id - nshift (only for read-only flows)
+        self.nshift = nshift or cfg.node_shift   # real NODE id = model node id - nshift
         self.ecust = ecust
         g = graph if graph is not None else nx.DiGraph()
         if cfg.has_seg:
             if seg is None:
                 shape = (cfg.T, *cfg.dims)
-                if cfg.embed:
+                if isinstance(cfg.embed, dict):
+                    shape = tuple(cfg.embed["shape"])
+                elif cfg.embed:
                     shape = (*shape[:-1], cfg.embed[0])
                 seg = np.zeros(shape, dtype=np.uint16)
             scale = [1, *cfg.scale] if cfg.use_scale else None
@@ -143,7 +148,7 @@ class Driver:
 
     def _on_refresh(self, *args):
         a = args[0] if args else None
-        self.emits.append(int(a) if isinstance(a, (int, np.integer)) and not isinstance(a, bool) else 0)
+        self.emits.append(int(a) + self.nshift if isinstance(a, (int, np.integer)) and not isinstance(a, bool) else 0)
 
     # ------------------------------------------------------------------ calls
     def pixels_of(self, t, bits):
@@ -151,9 +156,17 @@ class Driver:
         cfg = self.cfg
         idx = [r for r in range(cfg.P) if (bits >> r) & 1]
         coords = [np.asarray(c) for c in np.unravel_index(np.array(idx, dtype=int), cfg.dims)]
-        if cfg.embed:
+        if isinstance(cfg.embed, dict):
+            for ax, m in enumerate(cfg.embed["amap"]):
+                if m is not None:
+                    coords[ax] = np.array([m[c] for c in coords[ax]], dtype=int)
+            t = cfg.embed["tmap"][t]
+        elif cfg.embed:
             coords[-1] = np.array([cfg.embed[1][c] for c in coords[-1]], dtype=int)
         return (np.full(len(idx), t, dtype=int), *coords)
+
+    def real_time(self, t):
+        return self.cfg.embed["tmap"][t] if isinstance(self.cfg.embed, dict) and 0 <= t < len(self.cfg.embed["tmap"]) else t
 
     def apply_prim(self, c):
         """Construct one primitive action directly (it applies itself). Returns the action object."""
@@ -195,6 +208,12 @@ class Driver:
         k = c[0]
         ret = True
         restore = None
+        if self.nshift and k in (K_ADDNODE, K_ADDEDGE, K_DELEDGE, K_DELNODE, K_SWAP, K_SETATTR):
+            # real NODE ids are the model's minus nshift (node id 0 occurs)
+            c = list(c)
+            c[1] -= self.nshift
+            if k in (K_ADDEDGE, K_DELEDGE, K_SWAP):
+                c[2] -= self.nshift
         try:
             if k == K_ADDNODE:
                 n, t, tid, fl = c[1], c[2], c[3], c[4]
@@ -205,11 +224,11 @@ class Driver:
                     attrs[tr.features.tracklet_key] = tid - self.shift
                 if not fl & 2 and not self.cfg.has_seg:
                     if self.cfg.per_axis_pos:
-                        attrs["y"], attrs["x"] = user_pos(n)
+                        attrs["y"], attrs["x"] = user_pos(n + self.nshift)
                         if fl & 16:
                             del attrs["x"]          # only part of the per-axis position
                     elif not fl & 16:
-                        attrs["pos"] = user_pos(n)
+                        attrs["pos"] = user_pos(n + self.nshift)
                 pixels = None
                 if fl & 32 and not self.cfg.has_seg:
                     pixels = (np.array([t]), np.array([0]), np.array([0]))   # pixels without a segmentation
@@ -300,6 +319,13 @@ def _unshift_nodes(p):
     return p
 
 
+def sub_array(arr, cfg):
+    """the abstract array inside an embedded real array (dict embedding)"""
+    e = cfg.embed
+    idx = [e["tmap"]] + [m if m is not None else list(range(arr.shape[k + 1])) for k, m in enumerate(e["amap"])]
+    return arr[np.ix_(*idx)]
+
+
 def rat(x, bound=64):
     """float -> [num, den] (exact small rational) or [-7, 0] if it is not one"""
     if x is None:
@@ -330,6 +356,8 @@ def project(tr, cfg: Cfg, queries=False, shift=0, nshift=0):
             continue
         a = g.nodes[n]
         t = a.get(tk)
+        if t is not None and isinstance(cfg.embed, dict):
+            t = cfg.embed["tmap"].index(int(t)) if int(t) in cfg.embed["tmap"] else -2
         time.append(int(t) if t is not None else -2)
         v = a.get(idk); tid.append(int(v) + shift if v is not None else 0)
         v = a.get(lk) if lk is not None else None; lid.append(int(v) + shift if v is not None else 0)
@@ -366,7 +394,11 @@ def project(tr, cfg: Cfg, queries=False, shift=0, nshift=0):
     outside = 0
     if tr.segmentation is not None:
         arr = np.asarray(tr.segmentation)
-        if cfg.embed:
+        if isinstance(cfg.embed, dict):
+            sub = sub_array(arr, cfg)
+            outside = int(np.count_nonzero(arr)) - int(np.count_nonzero(sub))
+            arr = sub
+        elif cfg.embed:
             sub = arr[..., cfg.embed[1]]
             outside = int(np.count_nonzero(arr)) - int(np.count_nonzero(sub))
             arr = sub
